@@ -94,6 +94,18 @@ pub fn self_division_ground(hi: f64, lo: f64) {
     reached();
 }
 
+/// x/x == 1 exactly for every x = (h, l) whose words have at most m free leading fraction bits
+/// (l zero or kx binades below): a small symbolic class of the self-division clause
+pub fn self_division_m(kx: i32, m: u32) {
+    let x = dw_cell_m(1023, kx, m);
+    let r = x / x;
+    assert!(r.hi() == 1.0 && r.lo() == 0.0);
+    let mut t = x;
+    t /= x;
+    assert!(t.hi() == 1.0 && t.lo() == 0.0);
+    reached();
+}
+
 /// 16u^2 clause on the tiny class that is within reach: concrete double-double divisor, numerator
 /// with only `m` free fraction bits per word; attempted in the thorough tier only.
 pub fn div_dw_const(form: u8, bh: f64, bl: f64, kx: i32, m: u32) {
